@@ -48,7 +48,10 @@ def from_yaml(f: FileOrPath, ty: t.Type[T], *,
     with open_file(f) as f:
         obj = t.cast(t.Any, yaml.load(f, Loader))  # type: ignore
 
-    return from_data(obj, ty, custom=custom)
+    # (not `from_data`, which insists on a data interchange type: YAML has scalar
+    # kinds of its own (timestamps, sets), which the document itself may be. The converters deal with them)
+    from .convert import ConverterHandlers, make_converter
+    return make_converter(ty, ConverterHandlers.make(custom)).convert(obj)
 
 
 def from_yaml_all(f: FileOrPath, ty: t.Type[T], *,
